@@ -43,27 +43,34 @@ func script(t N) string {
 		sb.WriteString("c := chan()\n")
 	}
 	sb.WriteString("func sender(s, n) {\nfor i := 1; i <= n; i++ {\nsent(s, i)\nc <- [s, i]\n}\nreturn s\n}\n")
-	if recv == "iter" {
+	switch recv {
+	case "iter":
 		sb.WriteString("func receiver(r) {\nfor _, m := range c {\ngot(r, m[0], m[1])\n}\ngotnil(r)\nreturn r\n}\n")
-	} else {
+	case "iterbreak":
+		// iteration left early (every third value), one direct receive, then a new iteration: a value
+		// taken from the channel by an abandoned iteration would be lost
+		sb.WriteString("func receiver(r) {\nn := 0\nfor {\nbrk := false\nfor _, m := range c {\ngot(r, m[0], m[1])\nn++\nif n % 3 == 0 {\nbrk = true\nbreak\n}\n}\n" +
+			"if !brk {\ngotnil(r)\nreturn r\n}\nm := <-c\nif m == nil {\ngotnil(r)\nreturn r\n}\ngot(r, m[0], m[1])\n}\n}\n")
+	default:
 		sb.WriteString("func receiver(r) {\nfor {\nm := <-c\nif m == nil {\ngotnil(r)\nbreak\n}\ngot(r, m[0], m[1])\n}\nreturn r\n}\n")
 	}
-	spawn := func(fn string, args string) string {
-		switch form {
-		case "method":
-			return fmt.Sprintf("%s.spawn(%s)", fn, args)
-		case "go":
-			// a go statement cannot be waited for: signal completion on a channel
-			return fmt.Sprintf("gowait(%s, %s)", fn, args)
-		}
-		return fmt.Sprintf("spawn(%s, %s)", fn, args)
-	}
-	if form == "go" {
-		sb.WriteString("func gowait(f, a, b=0) {\nd := chan(1)\ngo func() {\nif b == 0 { f(a) } else { f(a, b) }\nd <- 1\n}()\nreturn d\n}\n")
-	}
 	sb.WriteString("rs := []\nss := []\n")
-	fmt.Fprintf(&sb, "for r := 1; r <= %d; r++ {\nrs.append(%s)\n}\n", nr, spawn("receiver", "r"))
-	fmt.Fprintf(&sb, "for s := 1; s <= %d; s++ {\nss.append(%s)\n}\n", ns, spawn("sender", fmt.Sprintf("s, %d", msgs)))
+	if form == "go" {
+		// a go statement cannot be waited for: completion is signalled on a channel given as argument;
+		// the loop variables named in the argument list are reassigned right after the statement
+		sb.WriteString("func runrecv(r, d) {\nreceiver(r)\nd <- 1\n}\nfunc runsend(s, n, d) {\nsender(s, n)\nd <- 1\n}\n")
+		fmt.Fprintf(&sb, "for r := 1; r <= %d; r++ {\nd := chan(1)\ngo runrecv(r, d)\nrs.append(d)\n}\n", nr)
+		fmt.Fprintf(&sb, "for s := 1; s <= %d; s++ {\nd := chan(1)\ngo runsend(s, %d, d)\nss.append(d)\n}\n", ns, msgs)
+	} else {
+		spawn := func(fn string, args string) string {
+			if form == "method" {
+				return fmt.Sprintf("%s.spawn(%s)", fn, args)
+			}
+			return fmt.Sprintf("spawn(%s, %s)", fn, args)
+		}
+		fmt.Fprintf(&sb, "for r := 1; r <= %d; r++ {\nrs.append(%s)\n}\n", nr, spawn("receiver", "r"))
+		fmt.Fprintf(&sb, "for s := 1; s <= %d; s++ {\nss.append(%s)\n}\n", ns, spawn("sender", fmt.Sprintf("s, %d", msgs)))
+	}
 	wait := "t.wait()"
 	if form == "go" {
 		wait = "<-t"
@@ -73,6 +80,12 @@ func script(t N) string {
 	sb.WriteString("x := 5\nmark(\"spawn\", 1, x)\nt1 := spawn(func(a) { return a * 10 + 1 }, x)\nx = 6\nmark(\"spawn\", 2, x)\nt2 := spawn(func(a, b) { return a * 10 + b }, x, 2)\nx = 7\n")
 	sb.WriteString("mark(\"wait\", 2, t2.wait())\nmark(\"wait\", 1, t1.wait())\n")
 	sb.WriteString("t3 := spawn(func() { error(\"boom\") })\nmark(\"waiterr\", 3, try(func() { t3.wait()\n return \"no error\" }, func(e) { return string(e) }))\n")
+	// go statement: function literal, named function and method callee; every argument variable is reassigned afterwards
+	sb.WriteString("dd := chan(8)\ny := 0\nfor k := 1; k <= 4; k++ {\ny = k\ngo func(a, d) { d <- (a * 10 + 3) }(y, dd)\ny = 100\n}\n")
+	sb.WriteString("g1 := <-dd\ng2 := <-dd\ng3 := <-dd\ng4 := <-dd\ngl := sorted([g1, g2, g3, g4])\nmark(\"go\", 4, gl)\n")
+	sb.WriteString("func addsend(a, b, d) { d <- (a + b) }\ny = 7\nz := 1\ngo addsend(y, z, dd)\ny = 70\nz = 10\ng5 := <-dd\nmark(\"go\", 5, g5)\n")
+	sb.WriteString("y = 9\ngo dd.send(y)\ny = 90\ng6 := <-dd\nmark(\"go\", 6, g6)\n")
+	sb.WriteString("func outer(p) {\nq := p + 1\nt := spawn(func(a) { return a }, q)\ngo addsend(q, p, dd)\nq = 0\np = 0\ng7 := <-dd\nreturn t.wait() * 100 + g7\n}\nmark(\"go\", 7, outer(3))\n")
 	sb.WriteString("\"done\"\n")
 	return sb.String()
 }
